@@ -503,7 +503,7 @@ func TestCheck(t *testing.T) {
 		clientProgram(run, caseID, run.Rand(caseID), i%5 != 4)
 	})
 	run.Assume("'last call wins' at the granularity each method documents (WithSubinterfaceRef = interface+subinterface, WithIPinIP = source+destination, With*LabelStack = the whole stack); encapsulation-header builders are configured completely before they are added and not touched afterwards")
-	run.Finish("(a) random programs of 0-13 builder calls per entry kind (every With*/Add* method, any order, repeats, OpProto() taken mid-program) interpreted twice - by the real builders and by an expectation constructed directly from the call log - and compared with proto.Equal, for OpProto() and EntryProto(); messages taken earlier are re-compared at the end; (b) client programs of AddEntry/ReplaceEntry/DeleteEntry/UpdateElectionID with reused and re-modified builders through a recording stub stream: ids 1,2,3.. in order, requested operation type, election stamp = most recently set id unless the entry carries its own (none in ALL_PRIMARY mode), each captured request deep-copied at capture and re-compared at the end. Distinct = by call log", 500, false)
+	run.Finish("(a) random programs of 0-13 builder calls per entry kind (every With*/Add* method, any order, repeats, OpProto() taken mid-program) interpreted twice - by the real builders and by an expectation constructed directly from the call log - and compared with proto.Equal, for OpProto() and EntryProto(); messages taken earlier are re-compared at the end; (b) client programs of AddEntry/ReplaceEntry/DeleteEntry/UpdateElectionID with reused and re-modified builders, through fresh Modify() handles and handles held across other calls, through a recording stub stream: ids 1,2,3.. in order, requested operation type, election stamp = most recently set id unless the entry carries its own (none in ALL_PRIMARY mode), each captured request deep-copied at capture and re-compared at the end. Distinct = by call log", 500, false)
 }
 
 // diffField names the first top-level payload field in which two messages differ.
@@ -567,15 +567,42 @@ func clientProgram(run *ev.Run, caseID string, r *rand.Rand, elected bool) {
 		c.Start(ctx, t)
 		c.StartSending(ctx, t)
 		var pool []*builder
+		// Modify() handles: fresh ones and ones held across other calls (the handle type is
+		// unexported, hence the closures)
+		type handle struct {
+			add, rep, del func(es ...fluent.GRIBIEntry)
+			upd           func(lo, hi uint64)
+		}
+		mk := func() handle {
+			m := c.Modify()
+			return handle{
+				add: func(es ...fluent.GRIBIEntry) { m.AddEntry(t, es...) },
+				rep: func(es ...fluent.GRIBIEntry) { m.ReplaceEntry(t, es...) },
+				del: func(es ...fluent.GRIBIEntry) { m.DeleteEntry(t, es...) },
+				upd: func(lo, hi uint64) { m.UpdateElectionID(t, lo, hi) },
+			}
+		}
+		var held []handle
+		pickHandle := func() (handle, string) {
+			if len(held) > 0 && r.Intn(3) == 0 {
+				return held[r.Intn(len(held))], "held Modify() handle"
+			}
+			h := mk()
+			if r.Intn(3) == 0 {
+				held = append(held, h)
+			}
+			return h, "fresh Modify() handle"
+		}
 		id := uint64(0)
 		steps := 3 + r.Intn(12)
 		for s := 0; s < steps; s++ {
 			switch x := r.Intn(10); {
 			case x < 2 && elected:
 				lo, hi := uint64(1+r.Intn(50)), uint64(r.Intn(3))
-				c.Modify().UpdateElectionID(t, lo, hi)
+				h, hn := pickHandle()
+				h.upd(lo, hi)
 				cur = &spb.Uint128{Low: lo, High: hi}
-				trace = append(trace, fmt.Sprintf("UpdateElectionID(%d,%d)", lo, hi))
+				trace = append(trace, fmt.Sprintf("UpdateElectionID(%d,%d) on a %s", lo, hi, hn))
 			case x < 4 && len(pool) > 0:
 				// modify a builder that was already used in a queued message
 				b := pool[r.Intn(len(pool))]
@@ -600,13 +627,14 @@ func clientProgram(run *ev.Run, caseID string, r *rand.Rand, elected bool) {
 					bs = append(bs, b)
 				}
 				kind := []spb.AFTOperation_Operation{spb.AFTOperation_ADD, spb.AFTOperation_REPLACE, spb.AFTOperation_DELETE}[r.Intn(3)]
+				h, hn := pickHandle()
 				switch kind {
 				case spb.AFTOperation_ADD:
-					c.Modify().AddEntry(t, es...)
+					h.add(es...)
 				case spb.AFTOperation_REPLACE:
-					c.Modify().ReplaceEntry(t, es...)
+					h.rep(es...)
 				default:
-					c.Modify().DeleteEntry(t, es...)
+					h.del(es...)
 				}
 				for _, b := range bs {
 					id++
@@ -617,7 +645,7 @@ func clientProgram(run *ev.Run, caseID string, r *rand.Rand, elected bool) {
 					}
 					want = append(want, w)
 				}
-				trace = append(trace, fmt.Sprintf("%s(%d entries)", kind, n))
+				trace = append(trace, fmt.Sprintf("%s(%d entries) on a %s", kind, n, hn))
 			}
 		}
 		wctx, wcancel := context.WithTimeout(ctx, 20*time.Second)
